@@ -34,7 +34,7 @@ SolvableE(e) ==
   IN k = 0 \/ ~M16!Singular([r \in 1 .. k |-> [c \in 1 .. k |-> Entry(e, used[r], miss[c])]])
 
 ParityIsSpec(e) ==
-  \A r \in 1 .. Len(e.pwords) : \A w \in 1 .. Len(e.pwords[r]) :
+  \A r \in {e.prows[k] : k \in 1 .. Len(e.prows)} : \A w \in 1 .. Len(e.pwords[r]) :
      e.pwords[r][w] = M16!Sum([j \in 1 .. e.d |-> GF16!FastMul(Entry(e, r, j), e.dwords[j][w])])
 
 Clauses(e) ==
